@@ -35,6 +35,9 @@ func (tr *Tr) execCall(fr *Frame, c *ssa.CallCommon, instr *ssa.Call, st *State)
 		fv := tr.val(fr, f).(*FnV)
 		return tr.callStatic(fr, fv.Fn, fv.Bind, args, resT, st)
 	}
+	if tr.cbParam != nil && c.Value == tr.cbParam && fr != nil && fr.top {
+		return tr.callbackCall(fr, c, args, st)
+	}
 	// dynamic call through a function value
 	v := tr.val(fr, c.Value)
 	if fv, ok := v.(*FnV); ok {
